@@ -228,13 +228,13 @@ Section SnapSim.
     exists ls ms', steps (with_msgs (base s) ms) ls (with_msgs (base s') ms') /\ R s' ms'.
   Proof.
     intros Hreach (Hincl & Hcov & Hsa) Hstep.
-    pose proof (inv_reachable V V_nodup _ Hreach) as [H1 H2 H3].
+    pose proof (inv_reachable V V_nodup _ Hreach) as [H1 Hq H2 H3a H3b].
     inversion Hstep; subst; repeat match goal with x := _ |- _ => subst x end;
       cbn [base first snaps]; set (a := with_msgs (base s) ms) in *.
     - (* a stage-1 step *)
       destruct (step_soup_mono _ _ _ ms H0 Hincl Hsa) as (new & Hnew & Hst).
       exists [l0], (new ++ ms). split; [econstructor; [exact Hst | constructor]|].
-      pose proof (step_gext V V_nodup _ _ _ H1 H2 Hst) as (_ & _ & Hg & _).
+      pose proof (step_gext V _ _ _ H1 H2 (fresh_fixed V V_nodup _ _ _ H1 Hq Hst) Hst) as (_ & _ & Hg & _).
       unfold R; cbn [base snaps]. split; [|split].
       + rewrite Hnew. intros m Hm. apply in_app_or in Hm. apply in_or_app.
         destruct Hm; [now left | right; now apply Hincl].
@@ -285,9 +285,9 @@ Section SnapSim.
       assert (Hlen : commit x + length (skipn (commit x) L) = sidx)
         by (rewrite skipn_length; lia).
       destruct (i_ae a H2 _ _ _ _ _ _ Hae) as (Hlead & _).
-      destruct (hcommit_agrees_leader V a j t H1 H2 H3 eq_refl Hlead) as (Hhc & _).
+      destruct (agl_fixed V a H2 H3a H3b j t eq_refl Hlead) as (Hhc & _).
       cbn [a with_msgs nodes llog] in Hhc. fold x in Hhc.
-      destruct (i_commit_bounds V a H3 j) as (Hcb & _). cbn [a with_msgs nodes] in Hcb. fold x in Hcb.
+      destruct (i_commit_bounds a H3a j) as (Hcb & _). cbn [a with_msgs nodes] in Hcb. fold x in Hcb.
       assert (Hpt : term_at (log x) (commit x) = term_at L (commit x)).
       { unfold L. rewrite term_at_firstn by lia. apply (agree_term_at _ _ _ _ Hhc). lia. }
       pose proof (append_never_conflicts_with_committed V V_nodup a j t ldr (commit x) _ _ sidx
@@ -331,9 +331,9 @@ Section SnapSim.
       assert (Hlen : commit x + length (skipn (commit x) L) = sidx)
         by (rewrite skipn_length; lia).
       destruct (i_ae a H2 _ _ _ _ _ _ Hae) as (Hlead & _).
-      destruct (hcommit_agrees_leader V a j t H1 H2 H3 eq_refl Hlead) as (Hhc & _).
+      destruct (agl_fixed V a H2 H3a H3b j t eq_refl Hlead) as (Hhc & _).
       cbn [a with_msgs nodes llog] in Hhc. fold x in Hhc.
-      destruct (i_commit_bounds V a H3 j) as (Hcb & _). cbn [a with_msgs nodes] in Hcb. fold x in Hcb.
+      destruct (i_commit_bounds a H3a j) as (Hcb & _). cbn [a with_msgs nodes] in Hcb. fold x in Hcb.
       assert (Hpt : term_at (log x) (commit x) = term_at L (commit x)).
       { unfold L. rewrite term_at_firstn by lia. apply (agree_term_at _ _ _ _ Hhc). lia. }
       pose proof (append_never_conflicts_with_committed V V_nodup a j t ldr (commit x) _ _ sidx
@@ -372,10 +372,10 @@ Section SnapSim.
                 R (mkNet2 b' (first s) (snaps s)) ms'.
   Proof.
     intros Hreach (Hincl & Hcov & Hsa) H0.
-    pose proof (inv_reachable V V_nodup _ Hreach) as [H1 H2 H3].
+    pose proof (inv_reachable V V_nodup _ Hreach) as [H1 Hq H2 H3a H3b].
     destruct (step_soup_mono _ _ _ ms H0 Hincl Hsa) as (new & Hnew & Hst).
     exists (new ++ ms). split; [exact Hst|].
-    pose proof (step_gext V V_nodup _ _ _ H1 H2 Hst) as (_ & _ & Hg & _).
+    pose proof (step_gext V _ _ _ H1 H2 (fresh_fixed V V_nodup _ _ _ H1 Hq Hst) Hst) as (_ & _ & Hg & _).
     unfold R; cbn [base snaps]. split; [|split].
     - rewrite Hnew. intros m Hm. apply in_app_or in Hm. apply in_or_app.
       destruct Hm; [now left | right; now apply Hincl].
@@ -510,11 +510,11 @@ Section SnapSim.
   Proof.
     intros Hr Hin Hk Hc. destruct (stage2_refines_stage1 s Hr) as (ms & Hreach & (_ & Hcov & _)).
     destruct (Hcov _ Hin) as (Hs & Ht & Hp).
-    pose proof (inv_reachable V V_nodup _ Hreach) as [H1 H2 H3].
+    pose proof (inv_reachable V V_nodup _ Hreach) as [H1 Hq H2 H3a H3b].
     split; [|rewrite Ht; apply term_at_firstn; lia].
-    pose proof (i_ae_commit V _ H3 _ _ _ _ _ _ (Hp 0 ltac:(lia))) as Hcp.
-    destruct (i_commit_bounds V _ H3 i) as (Hcb & _).
-    apply (cprefix_agree2 V _ _ _ _ _ _ _ k H1 H2 H3 (i_hcommit V _ H3 i) Hcp);
+    pose proof (i_ae_commit V _ H3b _ _ _ _ _ _ (Hp 0 ltac:(lia))) as Hcp.
+    destruct (i_commit_bounds _ H3a i) as (Hcb & _).
+    apply (cprefix_agree2 V _ _ _ _ _ _ _ k H2 H3b (i_hcommit V _ H3b i) Hcp);
       cbn [with_msgs nodes] in *; lia.
   Qed.
 
